@@ -129,7 +129,7 @@ def handlerInfo (d : DSt) (hid : String) : HandlerInfo × Option String :=
   | some (_, none, _) => (.noRun, none)
   | some (_, some r, status) => (.run (statusTerminal status), some r)
 
-def step (d : DSt) (line : String) : DSt × String :=
+def stepBase (d : DSt) (line : String) : DSt × String :=
   match line.splitOn "|" with
   | ["backend", "mem"] => ({ backend := .mem, started := true }, "ok")
   | ["backend", "sql"] => ({ backend := .sql, started := true }, "ok")
@@ -273,5 +273,41 @@ def step (d : DSt) (line : String) : DSt × String :=
       | none => (d, "bad-op")
     | _, _ => (d, "bad-op")
   | _ => (d, "bad-op")
+
+/-- id of a delivery entry `s<id>=…` / `a<id>=…`; store subscribers sort before endpoint ones -/
+def entryKey (e : String) : Nat × Nat :=
+  let isApi := if e.startsWith "a" then 1 else 0
+  (isApi, ((e.drop 1).takeWhile Char.isDigit).toString.toNat?.getD 0)
+
+def insertEntry (e : String) : List String → List String
+  | [] => [e]
+  | x :: xs =>
+    let (a1, a2) := entryKey e
+    let (b1, b2) := entryKey x
+    if a1 < b1 || (a1 == b1 && a2 < b2) then e :: x :: xs else x :: insertEntry e xs
+
+/-- `race|g|run|tag|type|types`: `__anext__` of subscriber `g` is started and, while it is in flight, the
+event is published; the answer lists everything delivered once all is quiet.  For the model this is `next`
+followed by `append` (the implementation must behave as if the subscriber's read-and-wait were atomic). -/
+def step (d : DSt) (line : String) : DSt × String :=
+  match line.splitOn "|" with
+  | ["race", g, r, tag, ty, tys] =>
+    match parseNat? g, parseNat? tag with
+    | some _, some _ =>
+      if !d.started then (d, "bad-op") else
+      let (d1, o1) := stepBase d s!"next|{g}"
+      let (d2, o2) := stepBase d1 s!"append|{r}|{tag}|{ty}|{tys}"
+      let mine : Option String :=
+        if o1.startsWith "item " then some s!"s{g}={(o1.drop 5).toString}"
+        else if o1 == "end" then some s!"s{g}=end"
+        else none
+      match o2.splitOn " deliver=" with
+      | [hd, tl] =>
+        let entries := if tl.isEmpty then [] else tl.splitOn ","
+        let entries := match mine with | some e => insertEntry e entries | none => entries
+        (d2, hd ++ " " ++ showDeliver entries)
+      | _ => (d2, o2)
+    | _, _ => (d, "bad-op")
+  | _ => stepBase d line
 
 end Drv.EventLog
